@@ -165,7 +165,7 @@ func genC15(t *rapid.T) c15Case {
 	case "readgroup", "b2":
 		minBytes = 1
 	}
-	nb := rapid.IntRange(minBytes, max(minBytes, 4000)).Draw(t, "nbytes")
+	nb := uniformInt(t, minBytes, max(minBytes, 4000), "nbytes")
 	if rapid.IntRange(0, 30).Draw(t, "big") == 0 && thorough() {
 		nb = 125000
 	}
